@@ -238,12 +238,12 @@ h("C01", "c01::c01_no_vol_block", tier="probe", funcs=SC, space="1 record, 1 rad
 
 # ------------------------------------------------------------------------------------------- C14
 prop("C14",
-     level_text="Bounded model checking of summarize::messages on message lists with concrete message kinds, against an independent single-pass reference written in the harness (tiling of 0..n, message_count == index span, maximal runs, singleton status/VCP groups, continuation flag, group type, first/last azimuth and time, collection-time range, empty VCP set). Two families: (a) kind patterns R S R and R V R with all three elevation numbers symbolic (every continuation outcome in one query); (b) lists of 4-6 messages with concrete kinds, elevation labels and type codes and symbolic azimuth angles (the solver executes the representative grouping and decides the data flow). Thorough tier adds per-group data-type counts and the VCP set on two radials with symbolic elevation numbers.",
+     level_text="Bounded model checking of summarize::messages on message lists with concrete message kinds, against an independent single-pass reference written in the harness (tiling of 0..n, message_count == index span, maximal runs, singleton status/VCP groups, continuation flag, group type, first/last azimuth and time, collection-time range, empty VCP set). Two families: (a) kind patterns R V R (quick) and R S R (thorough) with all three elevation numbers symbolic (every continuation outcome in one query); (b) lists of 4-6 messages with concrete kinds, elevation labels and type codes and symbolic azimuth angles (the solver executes the representative grouping and decides the data flow). Thorough tier adds per-group data-type counts and the VCP set on two radials with symbolic elevation numbers.",
      level_note="Trusted: Kani/CBMC. std::hash::RandomState::new stubbed to fixed SipHash keys (the real one calls the OS); alloc::fmt::format stubbed, so the strings inside RDAStatusInfo/VCPInfo are empty and not compared. Times of day are concrete and non-monotone (chrono on symbolic instants is C08's subject). A symbolic elevation equality that decides whether a group CONTINUES (pattern R R) exhausts 30 GB in CBMC's propositional reduction, hence family (b) uses concrete labels. --max-field-sensitivity-array-size 32768 (the Vec<Message> buffer must stay field-sensitive).",
      outside="lists longer than 6; grouping decided by symbolic elevation numbers or symbolic type codes; text of status/VCP info; messages at epoch 0")
 SUMF = ["summarize::messages", "summarize::rda::extract_rda_status_info", "summarize::vcp::extract_vcp_info", "MessageHeader::{message_type,date_time}"]
-for nm, sp, tier in (("c14_pat_rsr", "radial, status, radial: all 256^3 elevation numbers, all non-NaN azimuth angles", "quick"),
-                     ("c14_pat_rvr", "radial, VCP, radial: all 256^3 elevation numbers, all non-NaN azimuth angles", "thorough"),
+for nm, sp, tier in (("c14_pat_rsr", "radial, status, radial: all 256^3 elevation numbers, all non-NaN azimuth angles", "thorough"),
+                     ("c14_pat_rvr", "radial, VCP, radial: all 256^3 elevation numbers, all non-NaN azimuth angles", "quick"),
                      ("c14_pat_ssv", "status, status, VCP (two status decodes: peaks above 20 GB)", "probe"),
                      ("c14_lab_r1r1r2r1", "radials with elevation labels 1,1,2,1; all non-NaN azimuth angles", "quick"),
                      ("c14_lab_r1o13o13r1", "radial(1), other(13), other(13), radial(1); all non-NaN azimuth angles", "quick"),
@@ -282,7 +282,7 @@ for nm, sf in (("none", "(none)"), ("gz", ".gz"), ("v06", "V06"), ("us_v06", "_V
 h("C16", "c16::c16_successor_name_text", tier="probe", funcs=["ChunkIdentifier::next_chunk", "core::fmt (real, not stubbed)"], space="every three-digit sequence below 55: successor name text", bounds="unwind 24; no verdict in 30 min (core::fmt)", mem=16, timeout=1800, stubs=[MC])
 h("C16", "c16::c16_archive_name_wellformed", funcs=["archive::Identifier::{new,site,date_time}"], space="all names SSSS + 8 date digits + '_' + 6 time digits + any ASCII suffix of 0..=5 bytes (valid calendar digits)", bounds="L = 19..=24; chrono's NaiveDate/NaiveTime::parse_from_str replaced by recorders that accept exactly 8 / 6 digits; unwind 28", mem=12, timeout=1800)
 for t, k in ((0, None), (1, None), (2, None), (3, None), (4, None), (5, None), (5, 2), (5, 3), (3, 1)):
-    h("C16", "c16::c16_chunk_name_tail%d%s" % (t, "_mb%d" % k if k is not None else ""), funcs=["ChunkIdentifier::{new,sequence,chunk_type}"], space="names '20240813-123330-' + %d free ASCII bytes%s" % (t, " with a two-byte character at tail byte %d" % k if k is not None else ""), bounds="fixed length %d; unwind 28" % (16 + t), mem=16, timeout=1800, stubs=[MC])
+    h("C16", "c16::c16_chunk_name_tail%d%s" % (t, "_mb%d" % k if k is not None else ""), tier="thorough" if (t, k) in ((4, None), (5, 3), (3, 1)) else "quick", funcs=["ChunkIdentifier::{new,sequence,chunk_type}"], space="names '20240813-123330-' + %d free ASCII bytes%s" % (t, " with a two-byte character at tail byte %d" % k if k is not None else ""), bounds="fixed length %d; unwind 28" % (16 + t), mem=16, timeout=1800, stubs=[MC])
 h("C16", "c16::c16_archive_name_total", funcs=["archive::Identifier::{new,site,date_time}"], space="all strings of 0..=24 bytes: free ASCII with one 2-byte character at any position", bounds="L = 24; chrono's NaiveDate/NaiveTime::parse_from_str stubbed by 'any result'; unwind 28", mem=12, timeout=1800)
 for nm, sp in (("c04_type31_far_pointer_256m", "0x1000_0000"), ("c04_type31_far_pointer_max", "0xFFFF_FFFF")):
     h("C04", "c04::%s" % nm, tier="probe", funcs=["decode_digital_radar_data", "alloc::alloc::{alloc,alloc_zeroed,realloc} (request-size cap asserted)"], space="76-byte message, one block pointer = %s (concrete, far beyond the input), the other 30 header bytes free" % sp, bounds="fixed length 76, concrete pointer; unwind 32; every allocation request <= 16 MiB", mem=12, mfs=128, unwind_is_violation=True, timeout=1800)
